@@ -190,6 +190,76 @@ class RemoveData(Scenario):
             return "ok"
 
 
+class RemoveHole(Scenario):
+    """remove a whole drillhole that owns a depth table and an interval table (two property groups)"""
+    pid = "C04"
+
+    def body(self, cx):
+        from geoh5py.workspace import Workspace
+        from geoh5py.groups import DrillholeGroup
+        from geoh5py.objects import Drillhole
+        from geoh5py.shared.utils import as_str_if_uuid
+        sizes, target = self.params["sizes"], self.params["target"]
+        ws = Workspace()
+        g = DrillholeGroup.create(ws, name="DH")
+        holes = []
+        for k, sz in enumerate(sizes):
+            h = Drillhole.create(ws, parent=g, name=f"h{k}", collar=[0.0, 0.0, 0.0],
+                                 surveys=real_np.c_[[0.0, 10.0], [0.0, 0.0], [-90.0, -90.0]])
+            h.add_data({"lbl": {"depth": real_np.arange(sz) + 1.0, "values": real_np.arange(sz) + 5.0}})
+            h.add_data({"ivl": {"from-to": real_np.c_[real_np.arange(2) + 1.0, real_np.arange(2) + 2.0],
+                                "values": real_np.arange(2) + 7.0}})
+            holes.append(h)
+        g.on_file = False
+        data_labels = [lb for lb in g.index if lb in ("DEPTH", "lbl", "FROM", "TO", "ivl")]
+        total = sum(sizes)
+        with self.engine(cx) as X:
+            starts, szs, vals = _install_state(cx, X, g, "lbl", None, total, "")
+            before = {}
+            for lb in data_labels:
+                if lb == "lbl":
+                    continue
+                before[lb] = (g.index[lb].tolist(), elems(g.data[lb]))
+            lbl_data = [h.get_data("lbl")[0] for h in holes]
+            gone = as_str_if_uuid(holes[target].uid).encode()
+            if self.params.get("via_parent"):
+                g.remove_children([holes[target]])
+            else:
+                ws.remove_entity(holes[target])
+            for lb in data_labels:
+                if lb not in g.index:
+                    cx.prove(all(k == target for k in range(len(sizes))), f"label {lb} still present for the other holes", "tiling")
+                    continue
+                rows = [tuple(r) for r in g.index[lb].tolist()]
+                cx.prove(all(r[2] != gone for r in rows), f"{lb}: no stale index row of the removed hole", "tiling")
+                cx.prove(len(rows) == len(sizes) - 1, f"{lb}: one index row per remaining hole", "tiling")
+                tot = shape(g.data[lb])[0]
+                cx.prove(eq(tot, Sum([r[1] for r in rows])), f"{lb}: concatenated array length == sum of row sizes", "tiling")
+                for i, r in enumerate(rows):
+                    cx.prove(And(r[0] >= 0, r[0] + r[1] <= tot), f"{lb}: row inside the array", "tiling")
+                    for r2 in rows[i + 1:]:
+                        cx.prove(Or(r[0] + r[1] <= r2[0], r2[0] + r2[1] <= r[0]), f"{lb}: rows do not overlap", "tiling")
+            for k, d in enumerate(lbl_data):
+                if k == target:
+                    continue
+                got = g.fetch_values(d, "lbl")
+                old = _old_values(starts, szs, vals, k)
+                cx.prove(got is not None and shape(got)[0] == szs[k] and And([eq(a, b) for a, b in zip(elems(got), old)]),
+                         f"hole {k} keeps its values", "frame")
+            for lb, (rows0, dat0) in before.items():
+                if lb not in g.index:
+                    continue
+                for r in g.index[lb].tolist():
+                    r0 = [q for q in rows0 if q[2] == r[2] and q[3] == r[3]]
+                    ok = len(r0) == 1 and int(r[1]) == int(r0[0][1])
+                    if ok:
+                        now = elems(g.data[lb])[int(r[0]): int(r[0]) + int(r[1])]
+                        was = dat0[int(r0[0][0]): int(r0[0][0]) + int(r0[0][1])]
+                        ok = now == was
+                    cx.prove(ok, f"{lb}: the other holes keep their values", "frame")
+            return "ok"
+
+
 def _shape_tuples(k, maxsize):
     return list(itertools.product(range(maxsize + 1), repeat=k))
 
@@ -210,6 +280,7 @@ def scenarios(tier, seed):
             S.append(RemoveData(sizes=list(sz), target=len(sz) - 1, via_parent=True))
         S.append(UpdateValues(sizes=[2, 1], target=0, newlen=3, label="lbl"))
         S.append(UpdateValues(sizes=[2, 1], target=0, newlen=1, label="lbl"))
+        S += [RemoveHole(sizes=[2, 0, 1], target=0), RemoveHole(sizes=[1, 2], target=1, via_parent=True)]
     else:
         shapes = _shape_tuples(2, 3) + _shape_tuples(3, 2) + [t for t in _shape_tuples(3, 3) if 3 in t][:12] + \
             [(1, 0, 2, 1), (0, 0, 1, 0), (2, 2, 0, 1), (3, 1, 0, 0)]
@@ -220,6 +291,10 @@ def scenarios(tier, seed):
                 S.append(UpdateValues(sizes=list(sz), target=tgt, newlen=sz[tgt], label="lbl"))
                 S.append(RemoveData(sizes=list(sz), target=tgt))
             S.append(RemoveData(sizes=list(sz), target=0, via_parent=True))
+        for sz in ([2, 0, 1], [1, 1, 1], [0, 2], [2, 3, 1]):
+            for tgt in range(len(sz)):
+                S.append(RemoveHole(sizes=sz, target=tgt))
+                S.append(RemoveHole(sizes=sz, target=tgt, via_parent=True))
         for v in (2.0, 2.1):
             S.append(UpdateValues(sizes=[2, 0, 1], target=0, newlen=3, label="DEPTH", version=v))
             S.append(RemoveData(sizes=[2, 0, 1], target=1, version=v))
@@ -247,6 +322,6 @@ def main(tier, seed):
                          "setter on depth data (any length) / value data (same, shorter, longer length), "
                          "workspace.remove_entity(data), parent.remove_children([data])",
                 "thorough": "k in 2..4 holes, sizes<=3, new length in {0,1,2,4}, every target, both format versions"}[tier],
-        expected_outcomes={"UpdateValues": {"ok"}, "RemoveData": {"ok"}},
+        expected_outcomes={"UpdateValues": {"ok"}, "RemoveData": {"ok"}, "RemoveHole": {"ok"}},
         budget_s=600 if tier == "quick" else 3000,
     )
